@@ -230,6 +230,7 @@ func leveldbProposalPointKey(point base.Point, proposer base.Address, previousBl
 		leveldbKeyPrefixProposalByPoint,
 		point.Bytes(),
 		[]byte("-"),
+		util.Uint64ToBytes(uint64(len(pb))), // NOTE frames proposer from previous block
 		pb,
 		bb,
 	)
